@@ -18,7 +18,7 @@ SELECT = {
     "C05": ("W1-", "W2", "W4-", "R5:", "C05-", "lock:", "coverage:", "raises:OSError", "raises-only"),
     "C11": ("R6:", "C11-", "close-when-flushed-means-queue-dropped", "R1[req]", "coverage:"),
     "C12": ("C12-", "W4-", "R5:", "lock:", "W1-", "coverage:", "pre:numbytes", "pre:nonneg"),
-    "C13": ("R4:", "pre:worker-never-closes", "no-teardown", "connected-only-cleared", "coverage:", "_flush_some@W/raises", "_flush_some@IO/raises", "handle_write@IO/raises"),
+    "C13": ("C13-", "__init__@IO/raises", "__init__@IO/coverage", "R4:", "pre:worker-never-closes", "no-teardown", "connected-only-cleared", "coverage:", "_flush_some@W/raises", "_flush_some@IO/raises", "handle_write@IO/raises"),
     "C19": ("C19-", "pre:partial-expecting-request", "pre:holds-requests-lock", "coverage:", "R1[req]:sent_continue", "R1[req]:request-"),
 }
 FUNCS = {
